@@ -4,10 +4,38 @@ import json, os
 HERE = os.path.dirname(os.path.dirname(os.path.abspath(__file__)))
 
 HOOK_COMMITS = ["2cbbdff", "ac23892"]
-FIX_COMMITS = ["98bc2de", "ed106f3", "491bd24", "dfb98ff", "3df74c4", "b3f789f", "ab23d59"]
+FIX_COMMITS = ["98bc2de", "ed106f3", "491bd24", "dfb98ff", "3df74c4", "b3f789f", "ab23d59", "444235d", "331aeac", "5e37f18", "e1dd2ec", "eba1a61", "907b67f", "fe271db"]
 
 CHECKS = {
  # id: (engine, technique, level text, level note, design ref, has_thorough)
+ "C05": ("rsx+kani", "source-level symbolic execution (rsx+z3) of every path of SignatureContext::check with SHA-256/HMAC uninterpreted; bounded model checking (Kani/CBMC) of the date / payload-mode parsers; reference-signed request family replayed on the real build",
+         "identity is returned only behind a successful comparison with the signature computed under the provider's secret for the looked-up key, provider errors are returned, no provider => refused (all paths); AmzDate/AmzContentSha256 parsers over all 16-/64-byte inputs; the canonical request and key derivation are validated end to end (real crypto) by 33 reference-signed cases incl. single-component alterations and canonical-equivalent rewrites",
+         "crypto uninterpreted/collision-free in solver queries; the canonical-request string builder is not decided symbolically (stated in the evidence)",
+         "DESIGN.md 5/C05", True),
+ "C06": ("rsx+kani", "rsx+z3 over every path of SignatureContext::check (presigned branch); Kani/CBMC on parse_expires, AmzDate::to_time and the window arithmetic; reference presigner family against the real clock",
+         "parameters read through get_unique, window test, identity = X-Amz-Credential, compare under the provider's secret (all paths); expiry text of 1-4 bytes and edge values; window outcome = date-900s <= now <= date+expires on a reduced replay of the function's statements (one day, expiry < 10^5 s); 35 reference-presigned cases incl. removal/duplication/alteration of every parameter",
+         "the real v4_check_presigned_url exceeded the SAT solver (6.3 M variables): the window is decided on a replay of its statements; crypto uninterpreted",
+         "DESIGN.md 5/C06", True),
+ "C08": ("kani", "bounded model checking (Kani/CBMC) of the chunk-header grammar and of the two incremental readers under symbolic frame cuts; reference-encoded fault family with real HMAC on the real build",
+         "parse_chunk_meta over symbolic size/tag/signature/CRLF/junk bytes; read_meta_bytes/read_data equal their single-frame result for every cut; every single fault of a 3-chunk upload (altered/resized/swapped/duplicated/deleted/spliced/re-signed chunk, 14 truncation points, wrong declared length) ends the body with an error after delivering only verified bytes",
+         "the async generator composing the readers does not fit CBMC and is validated by the family only; HMAC chain real in the family, absent in the harnesses",
+         "DESIGN.md 5/C08", True),
+ "C09": ("kani", "bounded model checking (Kani/CBMC) of the chunk-decoder readers under frame cuts (2-safety against the single-frame run); partition/readiness family on the real build for all four body kinds",
+         "claimed symbolically only for the chunk-signed readers; multipart, plain and buffered bodies are covered by a family of ~30 partitions x readiness schedules per kind (not solver-decided), which also confirms the known multipart finding",
+         "multipart parser and generators do not fit CBMC (memchr_iter SIMD path cannot be stubbed under forbid(unsafe))",
+         "DESIGN.md 5/C09", True),
+ "C10": ("rsx", "rsx+z3 over every path of SignatureContext::check (POST branch) and over PutObject::deserialize_http_multipart against the Smithy model; reference-signed form family on the real build",
+         "identity only behind the comparison of HMAC(policy) under the provider's secret; every form field bound to the PutObject member the model names; file bytes exact for contents with CR/LF runs, boundary look-alikes and binary data (family); policy expiration/conditions are not enforced (4 known findings)",
+         "the multipart parser is exercised by the family only; crypto uninterpreted in solver queries",
+         "DESIGN.md 5/C10", False),
+ "C11": ("rsx+kani", "rsx+z3 over every path of SignatureContext::check (V2 branches); Kani/CBMC on AuthorizationV2::parse; reference V2 signer family",
+         "dispatch precedence, identity, compare under the provider's secret, Expires test before acceptance (all paths); AuthorizationV2 grammar over all 5-byte texts; 21 reference-signed cases incl. sub-resources, repeated x-amz headers and single-component alterations",
+         "HMAC-SHA1 uninterpreted in solver queries; the V2 string-to-sign builder is validated by the family only",
+         "DESIGN.md 5/C11", True),
+ "C13": ("rsx", "source-level symbolic execution of every generated SerializeContent/DeserializeContent pair on typed symbolic values (text leaves symbolic); z3 decides decode(encode(v)) = v; element names and list shapes against the Smithy model; native re-encoding of every counterexample document; Kani harnesses on the quick-xml event layer",
+         "~130 XML types x presence patterns {all, none, each member absent, each member alone} x list lengths {1,2}, strictness (duplicate / unknown / missing required element refused), top-level documents and root names",
+         "the Serializer/Deserializer methods of xml/ser.rs and xml/de.rs are modelled method by method (listed in the evidence); required lists carry >= 1 element; byte-level meaning (entities, CDATA, comments, whitespace) is the Kani part",
+         "DESIGN.md 5/C13", True),
  "C02": ("rsx", "source-level symbolic execution of all 96 generated deserialize_http bodies and of the http/de.rs helpers; z3 decides the equality of each member's source with the binding the Smithy model prescribes and the absent/single/duplicated cases of the helpers; one witness request per header/query member replayed on the real build",
          "every input member of every operation is shown to be decoded from exactly the location and wire name the API model gives it, no member from two sources, helper semantics absent->None/missing, one->parsed, duplicated->error, buffered body length = Content-Length; values are abstract (binding claim)",
          "trusts the rsx executor and catalogue, the http crate's header-constant naming; the s3s-aws proxy path, XML payload content (C13) and value-level parsing beyond the Kani leaves are outside the claim",
